@@ -211,6 +211,9 @@ def main(argv=None):
             merged["rule"] = res.get("rule") or merged["rule"]
             merged["assumptions"] = res.get("assumptions") or merged["assumptions"]
 
+        if harness_error:
+            return 2
+
         # ---- verdict ------------------------------------------------------------
         known = [k for k in known_findings() if k["prop"] == prop]
         reported = {}
@@ -230,9 +233,6 @@ def main(argv=None):
             n_viol += 1
             rc = 1
             print("VIOLATION property=%s replay=%s   [%s/%s] %s: %s" % (prop, path, v["build"], v["sub"], v["sig"], v["msg"][:400]))
-
-        if harness_error:
-            return 2
 
         samples = merged["samples"][:8]
         ev = {
